@@ -12,20 +12,25 @@ package lib
 
 import (
 	"bytes"
+	"context"
 	"fmt"
 	"io"
 	golog "log"
 	"net"
 	"os"
+	"path/filepath"
 	"runtime"
 	"strings"
 	"sync"
+	"syscall"
 	"testing"
 	"time"
 
 	"github.com/refraction-networking/conjure/internal/vc17"
 	"github.com/refraction-networking/conjure/internal/vlib"
+	"github.com/refraction-networking/conjure/pkg/station/geoip"
 	"github.com/refraction-networking/conjure/pkg/station/log"
+	"github.com/refraction-networking/conjure/pkg/transports"
 	pb "github.com/refraction-networking/conjure/proto"
 	"google.golang.org/protobuf/proto"
 )
@@ -70,7 +75,13 @@ func c17GenCase(out *vlib.Out, n *vc17.Node, all [][]string) {
 	out.Case("text|"+n.Enc(), vlib.Hex([]byte(err.Error()))+"|"+vc17.IsFlags(err), true)
 	g := generalizeErr(err)
 	ans := "nil"
-	if g != nil {
+	if g != nil && n.OpaqueAddr() {
+		// an address inside opaque text (a flattened operation error, a *net.AddrError): no sanitiser working
+		// on error values can remove it (`opaque_address_passes_through`); model and code must agree on what
+		// comes out, and no such error reaches a logged generalizeErr (the injection runs below are the check)
+		ans = vlib.Hex([]byte(g.Error()))
+		out.Count("gen:opaque-address-passes-through")
+	} else if g != nil {
 		ans = vlib.Hex([]byte(g.Error()))
 		out.Checked()
 		for _, needles := range all {
@@ -525,6 +536,11 @@ func TestVerifC17Lib(t *testing.T) {
 			c17GenCase(out, n, all)
 		}
 	}
+	for _, cl := range clients {
+		for _, n := range vc17.Opaque(cl.Addr) {
+			c17GenCase(out, n, all)
+		}
+	}
 	r := vlib.NewRand("C17lib")
 	for i, n := 0, vlib.Budget(4000, 150000); i < n; i++ {
 		c17GenCase(out, vc17.Rand(r, addrs), all)
@@ -534,6 +550,156 @@ func TestVerifC17Lib(t *testing.T) {
 	c17ProxyAll(out, &glob)
 	// (C)
 	c17Ingest(out)
+	// (D) connecting transports: GeoIP failure, relay over a UDP-addressed connection
+	c17Connecting(t, out, &glob)
+	// (E) the statistics printers, after all of the above has been counted
+	c17Statistics(out, all[:len(clients)])
+}
+
+// ---------------------------------------------------------------------------------------------
+// (D) handleConnectingTpReg
+
+type c17CT struct {
+	mockTransport
+	mk func() (net.Conn, error)
+}
+
+func (t *c17CT) Connect(ctx context.Context, r transports.Registration) (net.Conn, error) { return t.mk() }
+
+type c17NoStats struct{}
+
+func (c17NoStats) AddCreatedConnecting(uint, string, string)               {}
+func (c17NoStats) AddCreatedToSuccessfulConnecting(uint, string, string)   {}
+func (c17NoStats) AddCreatedToTimeoutConnecting(uint, string, string)      {}
+func (c17NoStats) AddSuccessfulToDiscardedConnecting(uint, string, string) {}
+func (c17NoStats) AddOtherFailConnecting(uint, string, string)             {}
+
+// c17IPv4OnlyGeoIP opens the station's GeoIP wrapper on two IPv4-only MaxMind databases: an IPv6 lookup
+// fails inside the reader with a text that repeats the looked-up address.
+func c17IPv4OnlyGeoIP(dir string) (geoip.Database, error) {
+	cc, asn := filepath.Join(dir, "cc.mmdb"), filepath.Join(dir, "asn.mmdb")
+	if err := os.WriteFile(cc, vc17.IPv4OnlyMMDB("GeoLite2-Country"), 0o644); err != nil {
+		return nil, err
+	}
+	if err := os.WriteFile(asn, vc17.IPv4OnlyMMDB("GeoLite2-ASN"), 0o644); err != nil {
+		return nil, err
+	}
+	return geoip.New(&geoip.DBConfig{CCDBPath: cc, ASNDBPath: asn})
+}
+
+func c17Connecting(t *testing.T, out *vlib.Out, glob *c17Buf) {
+	st := vc17.Station()
+	db, err := c17IPv4OnlyGeoIP(t.TempDir())
+	if err != nil {
+		c17Fail(out, "C17:harness-geoip-database", "cannot open the IPv4-only test databases: "+err.Error(), "connecting|geoip")
+		return
+	}
+	ln, err := net.Listen("tcp", "127.0.0.1:0")
+	if err != nil {
+		panic(err)
+	}
+	defer ln.Close()
+	go func() {
+		for {
+			c, err := ln.Accept()
+			if err != nil {
+				return
+			}
+			go func(c net.Conn) {
+				defer c.Close()
+				_ = c.SetDeadline(time.Now().Add(10 * time.Second))
+				_, _ = c.Write([]byte("reply from the covert"))
+				_, _ = io.Copy(io.Discard, c)
+			}(c)
+		}
+	}()
+	for _, cl := range vc17.Clients() {
+		for _, mode := range []string{"geoip-fails", "relay-udp"} {
+			udp := &net.UDPAddr{IP: cl.Addr.TCP.IP, Port: cl.Addr.TCP.Port, Zone: cl.Addr.TCP.Zone}
+			client := newC17Conn(&net.UDPAddr{IP: st.TCP.IP, Port: 443}, udp)
+			client.chunks = [][]byte{[]byte("hello from the client")}
+			client.readErr = &net.OpError{Op: "read", Net: "udp", Source: client.local, Addr: udp, Err: os.NewSyscallError("recvfrom", syscall.ENETDOWN)}
+			client.closeErr = &net.OpError{Op: "close", Net: "udp", Source: client.local, Addr: udp, Err: syscall.EIO}
+			ct := &c17CT{mk: func() (net.Conn, error) { return client, nil }}
+			rm := NewRegistrationManager(&RegConfig{ConnectingStats: c17NoStats{}})
+			if rm == nil {
+				panic("no registration manager")
+			}
+			rm.GeoIP = &geoip.EmptyDatabase{}
+			if mode == "geoip-fails" {
+				rm.GeoIP = db
+			}
+			if err := rm.AddTransport(pb.TransportType_DTLS, ct); err != nil {
+				panic(err)
+			}
+			reg := c05RegLike(ln.Addr().String(), false)
+			reg.Transport = pb.TransportType_DTLS
+			var tr Transport = ct
+			reg.TransportPtr = &tr
+			reg.registrationAddr = cl.Addr.TCP.IP
+			var lb c17Buf
+			logger := log.New(&lb, "[REG] ", golog.Ldate|golog.Lmicroseconds)
+			glob.Reset()
+			base := runtime.NumGoroutine()
+			handleConnectingTpReg(rm, reg, logger)
+			// the work happens on a goroutine of its own: wait for what ends it
+			isV6 := cl.Addr.TCP.IP.To4() == nil
+			want := "proxy closed "
+			if mode == "geoip-fails" && isV6 {
+				want = "Failed to get"
+			}
+			for i := 0; i < 40000 && !strings.Contains(lb.String(), want); i++ {
+				time.Sleep(250 * time.Microsecond)
+			}
+			c17Settle(base)
+			logged := lb.String() + glob.String()
+			out.Checked()
+			out.Count("connecting:" + mode)
+			if !strings.Contains(logged, want) {
+				c17Fail(out, "C17:harness-connecting-incomplete", fmt.Sprintf("%s client, %s: expected %q in the log, got %q", cl.Name, mode, want, logged), "connecting|"+cl.Name+"|"+mode)
+			}
+			if hit := vc17.Scan(logged, cl.Needles); hit != "" {
+				sig := "C17:relay-log-has-client-address"
+				if mode == "geoip-fails" {
+					sig = "C17:geoip-error-names-client"
+				}
+				c17Fail(out, sig, fmt.Sprintf("connecting transport, %s client, %s: the log contains %s: %s", cl.Name, mode, hit, c17Clip(logged, hit)),
+					"connecting|"+cl.Name+"|"+mode)
+			}
+		}
+	}
+}
+
+// ---------------------------------------------------------------------------------------------
+// (E) statistics
+
+func c17Statistics(out *vlib.Out, clientNeedles [][]string) {
+	var lb c17Buf
+	logger := log.New(&lb, "[STATS] ", golog.Ldate|golog.Lmicroseconds)
+	s := Stat()
+	old := s.logger
+	s.logger = logger
+	s.PrintStats(false)
+	s.PrintStats(true)
+	s.logger = old
+	getProxyStats().PrintAndReset(logger)
+	os.Setenv("PHANTOM_SUBNET_LOCATION", "./test/phantom_subnets.toml")
+	if rm := NewRegistrationManager(&RegConfig{}); rm != nil {
+		rm.PrintAndReset(logger)
+	}
+	logged := lb.String()
+	out.Checked()
+	out.Count("statistics")
+	for _, key := range []string{"Conns: ", "proxy-stats:", "reg-stats: "} {
+		if !strings.Contains(logged, key) {
+			c17Fail(out, "C17:harness-statistics-incomplete", fmt.Sprintf("the statistics printers did not write %q: %q", key, logged), "statistics")
+		}
+	}
+	for _, needles := range clientNeedles {
+		if hit := vc17.Scan(logged, needles); hit != "" {
+			c17Fail(out, "C17:statistics-have-client-address", "the statistics output contains "+hit+": "+c17Clip(logged, hit), "statistics")
+		}
+	}
 }
 
 func c17LibReplay(t *testing.T, out *vlib.Out, path string, glob *c17Buf) {
@@ -562,5 +728,15 @@ func c17LibReplay(t *testing.T, out *vlib.Out, path string, glob *c17Buf) {
 	}
 	if strings.Contains(s, "\ningest|") {
 		c17Ingest(out)
+	}
+	if strings.Contains(s, "\nconnecting|") {
+		c17Connecting(t, out, glob)
+	}
+	if strings.Contains(s, "\nstatistics") {
+		var cn [][]string
+		for _, cl := range vc17.Clients() {
+			cn = append(cn, cl.Needles)
+		}
+		c17Statistics(out, cn)
 	}
 }
